@@ -132,7 +132,9 @@ def rand_case(rng, model, Nmax=256, wide=False, inside=True):
     if inside:
         k = rng.randint(N // 8, N - 1 - N // 8)
     else:
-        k = rng.choice([rng.randint(-N - N // 2 - 5, 2 * N + N // 2 + 5), rng.randint(-3, 3), N + rng.randint(-3, 3)])
+        # shower time anywhere from 2N samples before the window to 2N samples after it (and the two window edges)
+        k = rng.choice([rng.randint(-2 * N, 3 * N)] * 4 + [rng.randint(-3, 3), N + rng.randint(-3, 3),
+                                                            N + N // 2 + rng.randint(-1, 2), N // 2 - N + rng.randint(-2, 1)])
     frac = rng.choice([0.0, 0.0, 0.5, 0.25, 0.875, 0.125])
     t0 = times[0] + (k + frac) * dt
     return {"model": model, "times": times, "dt": dt, "E": E, "em": em, "had": had, "psi": rand_angle(rng, n, model, wide),
@@ -365,7 +367,7 @@ def corr_values(ctx, mult=1):
     for model, nq, nt in (("ZHS", 14, 300), ("AVZ", 14, 300), ("ARZ", 4, 80)):
         for i in range(ctx.n(nq, nt) * (mult.get(model, 1) if isinstance(mult, dict) else mult)):
             c = rand_case(rng, model, Nmax=(64 if model == "ARZ" else 128) if not ctx.thorough else (96 if model == "ARZ" else 256),
-                          inside=(i % 3 != 2))
+                          inside=(i % 2 == 0))
             if model == "ARZ" and not ctx.thorough and abs(abs(c["psi"]) - theta_c(c["n"])) > 0.06:
                 c["psi"] = math.copysign(theta_c(c["n"]) + rng.choice([-1, 1]) * rng.uniform(0.01, 0.06), c["psi"])
             cs.append(c)
@@ -625,6 +627,97 @@ def probes(ctx, mult=1, models=MODELS):
             err = float(np.abs(vw - ref).max())
             if err > 1e2 * PEAK_TOL * peak:
                 fail("whole_sample_shift", dict(c, t0=t0), "moving t0 by %d samples: samples entering the window are not the 2N-periodic continuation: max error %.3g (peak %.3g)" % (m, err, peak), m=m)
+
+    # ---- shower times from times[0] - 2N dt to times[-1] + 2N dt, both parities of N, against an explicit placement oracle:
+    #      AVZ  one period (N samples) of the centred trace, centred on t0, zero outside            (bitwise)
+    #      ZHS  the 2N-periodic sample function (read from two reference calls), zeros in the zero exit
+    #      ARZ  the slice of the same pulse computed on one long grid (field at a physical time does not depend on the window)
+    for model in MODELS:
+        for it in range(ctx.n(5, 40) * mult):
+            c = probe_case(rng, model)
+            dt = c["dt"]
+            N = rng.choice([rng.randint(8, 48) * 2, rng.randint(8, 48) * 2 + 1, 33, 64])
+            if model == "ARZ":
+                N = min(N, 64)
+            t00 = c["times"][0]
+            c["times"] = [t00 + i * dt for i in range(N)]
+            frac = rng.choice([0.0, 0.0, 0.5, 0.25, 0.875])
+            offs = sorted(set([-2 * N, -N - 1, -N, -N + 1, -N // 2 - 1, -N // 2, -N // 2 + 1, -1, 0, N // 2, N - 1, N, N + 1, N + N // 2 - 1, N + N // 2,
+                               N + N // 2 + 1, 2 * N, 3 * N - 1] + [rng.randint(-2 * N, 3 * N - 1) for _ in range(6)]))
+            if model == "AVZ":
+                ref = run(c, t0=t00 + (N // 2 + frac) * dt)           # shift 0: the centred trace itself
+                if ref is None or not np.any(ref != 0):
+                    continue
+                for n0 in offs:
+                    t0 = t00 + (n0 + frac) * dt
+                    v = run(c, t0=t0)
+                    if v is None:
+                        continue
+                    count("far_t0")
+                    sh = n0 - N // 2
+                    exp = np.array([ref[j - sh] if 0 <= j - sh < N else 0.0 for j in range(N)])
+                    if not np.array_equal(v, exp):
+                        fail("placement", dict(c, t0=t0), "shower %g samples after times[0] (N=%d): the field is not one period of the centred pulse centred on t0 and zero outside: max error %.3g (peak %.3g)" % (
+                            n0 + frac, N, float(np.abs(v - exp).max()), float(np.abs(ref).max())))
+                        break
+            elif model == "ZHS":
+                ra, rb = run(c, t0=t00 + (N // 2 + frac) * dt), run(c, t0=t00 + (N // 2 - N + frac) * dt)
+                if ra is None or rb is None or not np.any(ra != 0):
+                    continue
+                S = np.concatenate((ra, rb))                            # S[i] = sample function at q = i - N//2, one full period 2N
+                peak = float(np.abs(S).max())
+                hi, lo = N + N // 2 + 1, N // 2 - N - 1
+                for n0 in offs:
+                    x = n0 + frac
+                    v = run(c, t0=t00 + x * dt)
+                    if v is None:
+                        continue
+                    count("far_t0")
+                    if x >= hi or x <= lo:
+                        exp = np.zeros(N)
+                    else:
+                        exp = np.array([S[(j - n0 + N // 2) % (2 * N)] for j in range(N)])
+                    if float(np.abs(v - exp).max()) > 1e2 * PEAK_TOL * peak:
+                        fail("placement", dict(c, t0=t00 + x * dt), "shower %g samples after times[0] (N=%d): the field is not the 2N-periodic pulse placed at t0 (zero exit %s): max error %.3g (peak %.3g)" % (
+                            x, N, "expected" if (x >= hi or x <= lo) else "not expected", float(np.abs(v - exp).max()), peak))
+                        break
+            else:
+                if near_critical(c):
+                    continue
+                G = [t00 + (i - 3 * N) * dt for i in range(7 * N)]
+                t0 = t00 + frac * dt
+                long = run(c, times=G, t0=t0)
+                if long is None or not np.any(long != 0):
+                    continue
+                peak = float(np.abs(long).max())
+                for n0 in offs:                                          # window starting n0 samples BEFORE the shower <=> shower n0 samples after its start
+                    s0 = 3 * N - n0
+                    if not 0 <= s0 <= 6 * N:
+                        continue
+                    w = G[s0:s0 + N]
+                    v = run(c, times=w, t0=t0)
+                    if v is None:
+                        continue
+                    count("far_t0")
+                    same_side = ((G[0] - t0 + 10e-9) > 0) == ((w[0] - t0 + 10e-9) > 0)
+                    tol = ((1e-7 if same_side else ARZ_TRUNC) + PEAK_TOL) * peak
+                    if float(np.abs(v - long[s0:s0 + N]).max()) > tol:
+                        fail("placement", dict(c, times=w, t0=t0), "shower %g samples after times[0] (N=%d): the field differs from the same pulse computed on a long grid: max error %.3g (tolerance %.3g, peak %.3g)" % (
+                            n0 + frac, N, float(np.abs(v - long[s0:s0 + N]).max()), tol, peak))
+                        break
+            # joint shift with the shower far outside the window (bitwise)
+            n0 = rng.choice([-2 * N, -N, -N // 2 - 1, N + N // 2, 2 * N, rng.randint(-2 * N, 3 * N - 1)])
+            t0 = t00 + (n0 + frac) * dt
+            sft = rng.choice([1, -1]) * rng.randint(1, 4000) * dt
+            ts = [t + sft for t in c["times"]]
+            if all((a - sft) == b for a, b in zip(ts, c["times"])) and (t0 + sft - sft) == t0 and (t0 + sft - ts[0]) == (t0 - t00) \
+                    and (ts[1] - ts[0]) == dt and (ts[-1] + dt) - (t0 + sft) == (c["times"][-1] + dt) - t0:
+                v, vs = run(c, t0=t0), run(c, times=ts, t0=t0 + sft)
+                if v is not None and vs is not None:
+                    count("far_joint_shift")
+                    if not np.array_equal(v, vs):
+                        fail("joint_shift", dict(c, t0=t0), "shower %g samples after times[0]: shifting grid and shower time together by %r changes the values by %.3g" % (
+                            n0 + frac, sft, float(np.abs(v - vs).max())), s=sft)
 
     # ---- finiteness / graceful failure over the whole declared input space (cheap models everywhere, ARZ away from the
     #      unaffordable band 1e-6 < |theta - theta_c| < 5e-3 where dt_divider reaches 1e4..1e6)
